@@ -202,7 +202,8 @@ def handle (ws : List String) : String :=
             pure ({ id := id, flag := fl, parts := pp } : BCSurf)
         | _ => none
       (match bcEntries surfs with
-       | .ok es => "ok " ++ " ".intercalate (es.map fun (i, k) => s!"{k}:{i}")
+       | .ok es => "ok " ++ " ".intercalate (es.map fun (i, k) => s!"{k}:{i}") ++ " | " ++
+                     " ".intercalate ((bcTextLines es).map fun l => if l.isEmpty then "-" else hex l)
        | .error .macrobody => "ok error macrobody"
        | .error (.badFlag _) => "ok error badflag")
   | "surfmodel" :: mn :: ps =>
